@@ -42,8 +42,15 @@ NAMES, OPS = _tables()
 NUMSTYLES = 5
 
 
-def num_bytes(n, style=0):
-    """the same integer in the spellings PDF allows for a number: 7, 7.0, +7, 7., 007"""
+def num_bytes(n, style=0, half=False):
+    """the same integer in the spellings PDF allows for a number: 7, 7.0, +7, 7., 007.  half: the operand is written as
+    n/2 (line width and dash operands are modelled in half units so that non-integer values occur: 3 -> 1.5)"""
+    if half:
+        if n % 2 == 0:
+            return num_bytes(n // 2, style)
+        txt = b"%d.5" % (abs(n) // 2)
+        sign = b"-" if n < 0 else (b"+" if style == 2 else b"")
+        return sign + (b"0" if style == 4 else b"") + txt + (b"0" if style == 1 else b"")
     if style == 1:
         return b"%d.0" % n
     if style == 2:
@@ -58,13 +65,13 @@ def num_bytes(n, style=0):
 def tok_bytes(t, style=0):
     k = t["t"]
     if k == "num":
-        return num_bytes(t["n"], style)
+        return num_bytes(t["n"], style, t.get("half", False))
     if k == "str":
         return ser_string(bytes(t["s"]))
     if k == "name":
         return b"/" + NAMES[t["s"][0] - 1].encode()
     if k == "arr":
-        return b"[" + b" ".join(tok_bytes(x, style) for x in t["a"]) + b"]"
+        return b"[" + b" ".join(tok_bytes(dict(x, half=True) if t.get("half") else x, style) for x in t["a"]) + b"]"
     if k == "op":
         return OPS[t["s"][0] - 1].encode()
     raise MachineryError("bad token %r" % (t,))
@@ -74,18 +81,38 @@ def lex_tokens(prog):
     """the lexical tokens of a program: an array contributes its brackets and its elements one by one, so that a
     division of the content `at white space` can also fall inside a composite operand"""
     out = []
-    for t in prog:
+    for t in mark_half(prog):
         if t["t"] == "arr":
             out.append(b"[")
-            out.extend(lex_tokens(t["a"]))
+            out.extend(tok_bytes(dict(x, half=True) if t.get("half") else x) for x in t["a"])
             out.append(b"]")
         else:
             out.append(tok_bytes(t))
     return out
 
 
+HALF_UNITS = {"w": 1, "d": 2}       # operator -> how many operands before it are written in half units
+HALF = False                        # switched on per group of programs (only where every w / d has its own operands right
+                                    # before it: no operand left over by an earlier operator can end up as a line width)
+
+
+def mark_half(prog):
+    """copies of the tokens with half=True on the operands of `w` and `d` (array and phase): these quantities take part in
+    no arithmetic, so the model's integers can stand for halves and the real documents carry 1.5, 0.5, ..."""
+    out = [dict(t) for t in prog]
+    if not HALF:
+        return out
+    for i, t in enumerate(out):
+        if t["t"] == "op":
+            n = HALF_UNITS.get(OPS[t["s"][0] - 1], 0)
+            for j in range(max(0, i - n), i):
+                if out[j]["t"] in ("num", "arr"):
+                    out[j]["half"] = True
+    return out
+
+
 def prog_bytes(prog, style=0):
-    return b" ".join(tok_bytes(t, style) for t in prog)
+    return b" ".join(tok_bytes(t, style) for t in mark_half(prog))
 
 
 def op_names(prog):
@@ -322,9 +349,10 @@ def model_shape(s):
     col = lambda c: tuple(float(x) for x in c) if c else None  # noqa: E731
     dash = None
     if s["dash"]:
-        dash = (list(s["dash"][0]), s["dash"][1])
+        h = 2.0 if HALF else 1.0                                         # (the model counts dash and width in half units)
+        dash = ([x / h for x in s["dash"][0]], s["dash"][1] / h)
     return {"kind": s["kind"], "pts": [tuple(float(v) for v in p) for p in s["pts"]], "stroke": s["stroke"], "fill": s["fill"],
-            "eo": s["eo"], "lw": s["lw"], "dash": dash, "sc": col(s["sc"]), "nc": col(s["nc"])}
+            "eo": s["eo"], "lw": s["lw"] / (2.0 if HALF else 1.0), "dash": dash, "sc": col(s["sc"]), "nc": col(s["nc"])}
 
 
 def shape_equal(r, ms):
@@ -371,7 +399,7 @@ def model_snap(s):
     tm = s["tm"]
     return {"ctm": tuple(s["ctm"]), "dctm": tuple(s["dctm"]), "tm": (tm[0], tm[1], tm[2], tm[3], tm[4] / U, tm[5] / U), "lx": s["lx"] / U,
             "font": s["font"], "size": s["size"], "tc": s["tc"], "tw": s["tw"], "tz": s["tz"], "tl": s["tl"], "rise": s["rise"],
-            "lw": s["lw"], "sc": col(s["sc"]), "nc": col(s["nc"]), "npath": s["npath"], "depth": s["depth"], "nargs": s["nargs"]}
+            "lw": s["lw"] / (2.0 if HALF else 1.0), "sc": col(s["sc"]), "nc": col(s["nc"]), "npath": s["npath"], "depth": s["depth"], "nargs": s["nargs"]}
 
 
 def snaps_equal(real, model):
